@@ -94,6 +94,7 @@ func switchToParentThread(L *LState, nargs int, haserror bool, kill bool) {
 	}
 	L.XMoveTo(parent, nargs)
 	L.stack.Pop()
+	L.yieldNRet = L.currentFrame.NRet
 	offset := L.currentFrame.LocalBase - L.currentFrame.ReturnBase
 	L.currentFrame = L.stack.Last()
 	L.reg.SetTop(L.reg.Top() - offset) // remove 'yield' function(including tailcalled functions)
